@@ -1,2 +1,75 @@
-(* Properties_C16.v -- placeholder, theorems follow *)
-From TP Require Import Term.
+(* Properties_C16.v — C16: canvas cells are addressed consistently and survive
+   resizing. *)
+From TP Require Import Base Elem Term Screen P_Canvas.
+From Coq Require Import Lia.
+Local Open Scope N_scope.
+
+(* a canvas of width w and height h has exactly w*h cells; cell (x, y) is the
+   (y*w + x)-th element of the begin()..end() range; cells are independently
+   assignable *)
+Theorem C16_cells :
+  (forall w h, wf_canvas (blank_canvas w h) /\ length (grid (blank_canvas w h)) = N.to_nat (w * h) /\
+               forall x y, cv_get (blank_canvas w h) x y = default_element) /\
+  (forall c x y, cv_get c x y = nth (N.to_nat (y * cw c + x)) (grid c) default_element) /\
+  (forall c x y e, wf_canvas c -> wf_canvas (cv_set c x y e)) /\
+  (forall c x y e x' y',
+     wf_canvas c -> x < cw c -> y < ch c -> x' < cw c -> y' < ch c ->
+     cv_get (cv_set c x y e) x' y' = if (x' =? x) && (y' =? y) then e else cv_get c x' y').
+Proof.
+  split; [intros w h; split; [apply blank_wf|split; [apply blank_wf|apply blank_get]]|].
+  split; [reflexivity|]. split; [exact set_wf|exact get_set].
+Qed.
+Print Assumptions C16_cells.
+
+(* region iteration visits each cell of the region exactly once, in row-major
+   order, with its correct coordinates and the element stored there *)
+Theorem C16_region :
+  forall c ox oy w h,
+    length (region_visit c ox oy w h) = N.to_nat (w * h) /\
+    (forall i j, i < w -> j < h ->
+       nth (N.to_nat (j * w + i)) (region_visit c ox oy w h) ((0, 0), default_element)
+       = ((ox + i, oy + j), cv_get c (ox + i) (oy + j))) /\
+    (forall x y, In (x, y) (map fst (region_visit c ox oy w h)) <->
+                 (ox <= x < ox + w) /\ (oy <= y < oy + h)).
+Proof.
+  intros c ox oy w h. unfold region_visit. split; [rewrite map_length; apply region_points_length|].
+  split.
+  - intros i j Hi Hj.
+    set (f := fun p : pt => (p, cv_get c (fst p) (snd p))).
+    rewrite (nth_indep _ _ (f (0, 0))).
+    + rewrite (map_nth f), region_points_nth by assumption. reflexivity.
+    + rewrite map_length, region_points_length. pose proof (index_bound w h i j Hi Hj). lia.
+  - intros x y. rewrite map_map. cbn [fst]. rewrite map_id. apply In_region_points.
+Qed.
+Print Assumptions C16_region.
+
+(* after a resize every cell inside both the old and the new extent keeps its
+   element, every other cell is a default element, and the reported size is the
+   new one - for all sizes and contents *)
+Theorem C16_resize :
+  forall c w' h',
+    cw (cv_resize c w' h') = w' /\ ch (cv_resize c w' h') = h' /\
+    wf_canvas (cv_resize c w' h') /\
+    forall x y, x < w' -> y < h' ->
+      cv_get (cv_resize c w' h') x y =
+      if (x <? cw c) && (y <? ch c) then cv_get c x y else default_element.
+Proof.
+  intros c w' h'. split; [reflexivity|]. split; [reflexivity|]. split; [apply resize_wf|].
+  exact (resize_get c w' h').
+Qed.
+Print Assumptions C16_resize.
+
+(* lifted to every sequence of resizes *)
+Theorem C16_resizes_wf :
+  forall sizes c, wf_canvas c ->
+    wf_canvas (fold_left (fun c sz => cv_resize c (fst sz) (snd sz)) sizes c).
+Proof.
+  induction sizes as [|sz r IH]; intros c H; [exact H|]. cbn [fold_left]. apply IH, resize_wf.
+Qed.
+
+Example C16_nonvacuous :
+  let c := cv_set (cv_set (blank_canvas 3 2) 2 1 (mkElem (mkGlyph CsAscii 65 0 0) default_attr)) 0 0
+                  (mkElem (mkGlyph CsAscii 66 0 0) default_attr) in
+  g0 (eg (cv_get (cv_resize c 5 1) 0 0)) = 66 /\ g0 (eg (cv_get (cv_resize c 5 1) 2 0)) = 32 /\
+  g0 (eg (cv_get (cv_resize (cv_resize c 2 2) 3 2) 2 1)) = 32.
+Proof. vm_compute. repeat split. Qed.
